@@ -10,7 +10,8 @@ def repo_sources():
     files = sorted(glob.glob(src + 'library/prog_args/*.cpp') + glob.glob(src + 'library/prog_args/detail/*.cpp'))
     files += [src + f for f in ('library/appl/arg_string_2_array.cpp', 'library/format/text_block.cpp',
                                 'library/common/exception_base.cpp', 'library/common/extract_funcname.cpp',
-                                'library/container/dynamic_bitset.cpp')]
+                                'library/container/dynamic_bitset.cpp', 'library/common/detail/range_expression.cpp',
+                                'library/common/detail/range_generator.cpp')]
     return [f[len(src):] for f in files if os.path.exists(f)]
 
 
